@@ -93,6 +93,8 @@ def run_case(case):
                 return {"raised": 1}
         if case.get("kind") == "anim":
             return run_anim(case)
+        if case.get("kind") == "oanim":
+            return run_oanim(case)
         text = case["render"]["style"] == "text"
         if text:  # the lines of a text renderable, verbatim
             inner = {"out": "\n".join(case["render"]["lines"]), "rendered_size": case["render"]["cells"]}
@@ -281,6 +283,91 @@ def run_anim(case):
     joined = ["\n".join(f) for f in frames]
     exact = (pad.resolve(os.terminal_size(case["term_size"])) if isinstance(pad, AlignedPadding) else pad).to_exact(Size(w, h))
     return {"out": out, "frames": joined * loops, "size": [w, h], "dims": list(exact.dimensions)}
+
+
+# --------------------------------------------------------- animated draws of the image classes (round 8)
+def make_gif(spec):
+    """an n-frame RGB GIF (n_frames, size in pixels, seed); every frame differs from the others"""
+    import io
+    from PIL import Image
+    n, (pw, ph), seed = spec["n_frames"], spec["size"], spec.get("seed", 0)
+    ims = []
+    for k in range(n):
+        im = Image.new("RGB", (pw, ph))
+        px = im.load()
+        for y in range(ph):
+            for x in range(pw):
+                px[x, y] = ((seed * 13 + 60 * k + 9 * x) % 256, (40 * k + 23 * y + seed) % 256, (200 - 45 * k + x * y) % 256)
+        ims.append(im)
+    buf = io.BytesIO()
+    ims[0].save(buf, "GIF", save_all=True, append_images=ims[1:], duration=1, loop=0)
+    buf.seek(0)
+    return Image.open(buf)
+
+
+def run_oanim(case):
+    """BaseImage.draw(animate=True) of a multi-frame image of the given style on a pty, the style's class
+    carrying the given terminal identity (ITerm2Image._TERM is per class: set for this one draw, restored
+    afterwards; kitty: _KITTY_VERSION); returns everything that arrived on the master side, the UNFORMATTED
+    frame renders in the order they were produced (recorded at _render_image) and the rendered size."""
+    import sys
+    import time
+    from term_image.image import BlockImage, ITerm2Image, KittyImage
+    cls = {"block": BlockImage, "kitty": KittyImage, "iterm2": ITerm2Image}[case["style"]]
+    tests.set_cell_size(tuple(case.get("cell_size", (10, 20))))
+    saved_cls = (ITerm2Image._TERM, ITerm2Image._supported, KittyImage._supported, KittyImage._KITTY_VERSION)
+    ts = os.terminal_size(tuple(case["term_size"]))
+    patched = []
+    for name, mod in list(sys.modules.items()):   # every module of the library that imported the function
+        if name.startswith("term_image") and hasattr(mod, "get_terminal_size"):
+            patched.append((mod, mod.get_terminal_size))
+            mod.get_terminal_size = lambda: ts
+    saved_sleep = time.sleep
+    # kitty.py binds `_stdout_write = sys.stdout.write` at import time; here sys.stdout is replaced for the
+    # capture, so follow the current sys.stdout (in a program that never rebinds sys.stdout they are the same)
+    from term_image.image import kitty as _kitty
+    saved_write = _kitty._stdout_write
+    _kitty._stdout_write = lambda text: sys.stdout.write(text)
+    H_ALIGN = [["<", "left"], ["|", "center", None], [">", "right"]]
+    V_ALIGN = [["^", "top"], ["-", "middle", None], ["_", "bottom"]]
+    try:
+        KittyImage._supported = ITerm2Image._supported = True
+        KittyImage._KITTY_VERSION = tuple(case.get("kitty_version", (0, 30, 0)))
+        ITerm2Image._TERM = case.get("term", "")
+        pres = case.get("pres", 0)
+        ha = H_ALIGN[case["ha"]][pres % len(H_ALIGN[case["ha"]])]
+        va = V_ALIGN[case["va"]][pres % len(V_ALIGN[case["va"]])]
+        img = make_gif(case["img"])
+        image = cls(img, height=case["height"])
+        image.frame_duration = 0.0001
+        frames = []
+        orig = image._render_image
+
+        def wrapped(*a, **k):
+            out = orig(*a, **k)
+            frames.append(out)
+            return out
+
+        image._render_image = wrapped
+        W, Hh = case["pad"]
+        kw = dict(animate=True, repeat=case.get("repeat", 1), cached=case.get("cached", False))
+        kw.update(case.get("args", {}))
+        time.sleep = lambda seconds: None
+        try:
+            out, exc = capture_pty(lambda: image.draw(ha, W, va, Hh, None, **kw))
+        finally:
+            time.sleep = saved_sleep
+        if exc is not None:
+            return {"error": f"draw() raised {type(exc).__name__}: {exc}"}
+        n = img.n_frames
+        rep = case.get("repeat", 1)
+        drawn = frames if len(frames) == n * rep else (frames[:n] * rep if len(frames) >= n else frames)
+        return {"out": out, "frames": drawn, "rendered": len(frames), "size": list(image.rendered_size), "n_frames": n}
+    finally:
+        _kitty._stdout_write = saved_write
+        for mod, fn in patched:
+            mod.get_terminal_size = fn
+        (ITerm2Image._TERM, ITerm2Image._supported, KittyImage._supported, KittyImage._KITTY_VERSION) = saved_cls
 
 
 # ------------------------------------------------------------------------------- histories
